@@ -123,6 +123,12 @@ func runOne(t *testing.T, p Property, c any, spec simkit.SchedSpec, runSeed uint
 	if j, ok := p.(ResultJudge); ok {
 		j.Judge(c, &res)
 	}
+	if res.Violation == nil && res.Infra == "" && res.FrameworkPanic != "" {
+		// the workload makes legal calls only: a panic raised inside the framework by one of them
+		// (not recovered by the framework, so in a caller's goroutine) is not a behaviour any
+		// property allows for
+		res.Violation = &simkit.Violation{Class: p.ID() + "/framework-panic", Detail: "a call of the public API panicked inside the framework: " + res.FrameworkPanic, Step: res.Steps}
+	}
 	if res.Violation == nil && res.Infra == "" {
 		if res.OverBudget {
 			res.Infra = fmt.Sprintf("step budget exceeded after %d decisions", res.Steps)
@@ -418,7 +424,7 @@ func replay(t *testing.T, p Property, job Job, out *outWriter) {
 	}
 	activeRun.desc = ""
 	rec := map[string]any{"type": "replay", "steps": res.Steps, "violation": res.Violation, "infra": res.Infra,
-		"hashes": fmt.Sprintf("%016x %016x %d %v", res.SchedHash, res.EventHash, res.Steps, res.Violation != nil),
+		"hashes":   fmt.Sprintf("%016x %016x %d %v", res.SchedHash, res.EventHash, res.Steps, res.Violation != nil),
 		"expected": fl.Violation, "trace": traceStrings(&res, 80), "events": tail(res.Events, 80)}
 	rec["reproduced"] = res.Violation != nil && fl.Violation != nil && res.Violation.Class == fl.Violation.Class &&
 		res.Violation.Detail == fl.Violation.Detail
